@@ -26,7 +26,8 @@ THEOREMS = ['C04.cache_transparent', 'C04.getUserId_sound', 'C04.getUserId_uniqu
             'C04.glob_iff_matches', 'C04.glob_case', 'C04.patCharMatch_eq_cls',
             # the User plugin: logins are backed by the account's password
             'C04.step_auth', 'C04.guard_identify', 'C04.pstep_pinv', 'C04.auth_backed_by_password',
-            'C04.recognised_by_mask_or_password', 'C04.addAuth_secure',
+            'C04.recognised_by_mask_or_password', 'C04.addAuth_secure', 'C04.pstepA_pinv',
+            'C04.ambiguous_sender_runs_nothing',
             # obligation on the extracted case table
             'C04.rfc1459_table_classes', 'C03.rfc1459_table_ok']
 TRUSTED = ['Lean 4.33.0 kernel; axioms ⊆ {propext, Classical.choice, Quot.sound}',
@@ -39,8 +40,9 @@ RULE = ('history = reset(timeout), then 5–60 operations over ≤5 accounts dra
         'the caches), each followed by the enumeration order of changed hostmask sets and periodically by a dump (records + both caches). '
         'A plugin stream drives the REAL User plugin on the live bot (register, identify with right/wrong passwords from recognised/'
         'unrecognised/secure senders, unidentify, hostmask add/remove, set secure, whoami, ticks): reply kind, records and the ghost log of '
-        'password-backed identifications are compared with the model after every command; senders that match two accounts are not used '
-        '(the bot\'s own per-message lookups then delete masks; covered by the dictionary stream). '
+        'password-backed identifications AND both caches are compared with the model after every command, including the lookups of the '
+        'sender that the bot itself makes around each command (a sender matching two accounts: dispatch abandoned, masks deleted), the nick '
+        'fallback of otherUser, hostmask remove all, changename to hostmask-like names. '
         'Non-trivial = the history contains a cache hit after an edit, a duplicate, an expiry, a rollback or a rejection; distinct = distinct '
         'operation list. Streams: hist, hostile (hostmask-like names, line breaks, odd masks), overflow (>1000 distinct lookups), '
         'glob (pattern/hostmask pairs), corpus/finding witnesses first.')
@@ -518,8 +520,8 @@ def classify(texts):
     if 'You must be registered to use this command' in t: return 'notRegistered'
     if "in my user database" in t: return 'noUser'
     if 'Your secure flag is true' in t: return 'secureError'
-    if 'That name is already assigned' in t or 'is already registered.' in t: return 'nameTaken'
     if 'Your hostmask is already registered to' in t or 'That hostmask is already registered' in t: return 'hostmaskTaken'
+    if 'That name is already assigned' in t or 'is already registered.' in t: return 'nameTaken'
     if 'Hostmask must contain at least' in t: return 'invalidMask'
     if 'is not a valid' in t: return 'invalid'
     if 'There was no such hostmask' in t: return 'noSuchHostmask'
